@@ -40,6 +40,9 @@ from solvor.utils import check_positive
 
 __all__ = ["solve_bin_pack"]
 
+# Remaining capacity is accumulated by float subtraction; 0.7 - 0.5 < 0.2 must still fit
+_FIT_TOL = 1e-9
+
 
 def solve_bin_pack(
     item_sizes: Sequence[float],
@@ -99,13 +102,13 @@ def solve_bin_pack(
             # Find bin with least remaining space that still fits
             best_remaining = float("inf")
             for b, (remaining, _) in enumerate(bins):
-                if size <= remaining < best_remaining:
+                if size <= remaining + _FIT_TOL and remaining < best_remaining:
                     best_remaining = remaining
                     best_bin = b
         else:
             # First-fit: find first bin that fits
             for b, (remaining, _) in enumerate(bins):
-                if size <= remaining:
+                if size <= remaining + _FIT_TOL:
                     best_bin = b
                     break
 
